@@ -35,6 +35,26 @@ type Fixture struct {
 	Nesting func(n int) string
 	// Flat builds a valid flat input of about n items.
 	Flat func(n int) string
+	// Sub parses SubSample with a parser derived for an inner production (participle.ParserForProduction); nil if
+	// the fixture has none.
+	Sub       func() (any, error)
+	SubSample string
+}
+
+// WithSub registers a derived parser for production P of the fixture's grammar.
+func WithSub[P, G any](f *Fixture, p *participle.Parser[G], sample string) {
+	f.SubSample = sample
+	f.Sub = func() (any, error) {
+		sp, err := participle.ParserForProduction[P](p)
+		if err != nil {
+			return nil, err
+		}
+		v, err := sp.ParseString("sub", sample)
+		if v == nil {
+			return nil, err
+		}
+		return v, err
+	}
 }
 
 // NamedReader is a reader with a Name method (like *os.File): Parse falls back to it when no filename is given.
